@@ -58,6 +58,12 @@ class _Rec:
     def _r(self, what):
         READS.append((type(self).__name__, what))
 
+    def _it(self, src):
+        """Iterate ``src`` recording one read per item handed out (a full walk costs len reads)."""
+        for v in src:
+            self._r('__next__')
+            yield v
+
 
 class USeq(_Rec, cabc.Sequence):
     def __init__(self, items=()):
@@ -71,8 +77,7 @@ class USeq(_Rec, cabc.Sequence):
         return self._i[k]
 
     def __iter__(self):
-        self._r('__iter__')
-        return iter(self._i)
+        return self._it(self._i)
 
     def __repr__(self):
         return f'USeq({self._i!r})'
@@ -102,8 +107,7 @@ class UMutSeq(_Rec, cabc.MutableSequence):
         self._i.insert(k, v)
 
     def __iter__(self):
-        self._r('__iter__')
-        return iter(self._i)
+        return self._it(self._i)
 
     def __repr__(self):
         return f'UMutSeq({self._i!r})'
@@ -121,8 +125,7 @@ class USet(_Rec, cabc.Set):
         return x in self._i
 
     def __iter__(self):
-        self._r('__iter__')
-        return iter(self._i)
+        return self._it(self._i)
 
     def __repr__(self):
         return f'USet({self._i!r})'
@@ -142,8 +145,7 @@ class UColl(_Rec, cabc.Collection):
         return x in self._i
 
     def __iter__(self):
-        self._r('__iter__')
-        return iter(self._i)
+        return self._it(self._i)
 
     def __repr__(self):
         return f'UColl({self._i!r})'
@@ -161,8 +163,7 @@ class UMap(_Rec, cabc.Mapping):
         return self._d[k]
 
     def __iter__(self):
-        self._r('__iter__')
-        return iter(self._d)
+        return self._it(self._d)
 
     def __repr__(self):
         return f'UMap({self._d!r})'
